@@ -830,6 +830,7 @@ def step (st : State) (line : String) : State × String :=
     else if t.startsWith "sh." || t.startsWith "cs." || t.startsWith "cl." then stepShard st toks
     else if t.startsWith "sel." then stepSelect st toks
     else if t.startsWith "p." then stepReplTracked st toks
+    else if t.startsWith "k." then (st, "ok")   -- coordinator scripts: nothing to compare, the oracle works on the RPC log
     else if t.startsWith "c." then stepCluster st toks
     else if t.startsWith "s." then stepSess st toks
     else if t.startsWith "q." || t.startsWith "lc." then stepAck st toks
